@@ -61,6 +61,9 @@ def run(ctx):
     gen_s = ctx.tlc("walrecover", "WalRecover", "Gen_sched_%s.cfg" % size, timeout=1500, workers=4, heap="6g")
     entry = _scenarios(gen_e.traces)
     sched = _scenarios(gen_s.traces)
+    sched_adj = sched
+    if not quick:   # the large config has three write classes only; the adjacency classes come from the small one
+        sched_adj = _scenarios(ctx.tlc("walrecover", "WalRecover", "Gen_sched_small.cfg", timeout=1500, workers=4).traces)
     if not entry or not sched:
         raise InfraError("generator emitted nothing")
     ctx.traces_validated(0)
@@ -91,6 +94,11 @@ def run(ctx):
         # always: a transient replay-callback failure (file must be kept), then crash, restart, retry
         faulty = [s for s in one if s["sched"] == ["w", "p", "x", "s", "rf", "k", "R", "x", "s", "r", "d", "R", "F"]]
         chosen += faulty
+        # always: two WAL-adjacent columnar writes (same shape / other database, and the controls with another
+        # column set or measurement), both persisted, crash, full recovery
+        adj = ["w", "p", "w", "p", "x", "s", "r", "r", "d", "R", "F"]
+        chosen += [s for s in sched if len(s["writes"]) == 2 and s["sched"] == adj
+                   and all(w["kind"] == "raw" for w in s["writes"]) and s["writes"][0]["db"] != s["writes"][1]["db"]]
         chosen += [s for s in rnd.sample(one, min(16, len(one))) if s not in fixed2]
         chosen += rnd.sample(two, min(8, len(two)))
     else:
@@ -104,6 +112,13 @@ def run(ctx):
         two = [s for s in crashy if len(s["writes"]) == 2]
         big = [s for s in crashy if len(s["writes"]) > 2]
         chosen += one + rnd.sample(two, min(160, len(two))) + rnd.sample(big, min(80, len(big)))
+        adj = ["w", "p", "w", "p", "x", "s", "r", "r", "d", "R", "F"]
+        chosen += [s for s in sched_adj if len(s["writes"]) == 2 and s["sched"] == adj
+                   and all(w["kind"] == "raw" for w in s["writes"]) and s["writes"][0]["db"] != s["writes"][1]["db"]]
+        two_adj = [s for s in sched_adj if len(s["writes"]) == 2 and any(x in s["sched"] for x in ("x", "xa", "xb"))
+                   and any(w["kind"] == "raw" and w["db"] == "d2" for w in s["writes"])]
+        chosen += rnd.sample(two_adj, min(120, len(two_adj)))
+        chosen += [s for s in sched_adj if len(s["writes"]) == 1 and "rf" in s["sched"] and s not in chosen]
     ctx.log("TLC emitted %d entry-level and %d schedule-level behaviours; replaying %d" % (len(entry), len(sched), len(chosen)))
     ctx.note("generated_behaviours", {"entry_level": len(entry), "schedule_level": len(sched), "replayed": len(chosen),
                                       "gen_entry_states": gen_e.distinct, "gen_sched_states": gen_s.distinct})
